@@ -86,6 +86,30 @@ def combine_keys(base, span):
     return (tuple(attrs), ck(fg), bgk, link)
 
 
+def combine_list(styles):
+    """Right-biased combination of any number of style strings, in order."""
+    from rich.style import Style
+
+    attrs = {}
+    fg = bg = link = None
+    for d in styles:
+        if not d:
+            continue
+        st = Style.parse(d)
+        for a in ATTRS:
+            v = getattr(st, a)
+            if v is not None:
+                attrs[a] = v
+        fg = st.color if st.color is not None else fg
+        bg = st.bgcolor if st.bgcolor is not None else bg
+        link = st.link if st.link is not None else link
+
+    def ck(c, foreground=True):
+        return None if c is None or c.is_default else tuple(c.get_ansi_codes(foreground=foreground))
+
+    return (tuple(a for a in ATTRS if attrs.get(a)), ck(fg), ck(bg, False), link)
+
+
 # control codes rich removes from any text it prints (rich.control.strip_control_codes: BEL, BS, VT,
 # FF, CR).  BS / VT / FF occur in real redirected output (nroff-style overstrike, form feeds); a line
 # that carries them must come out without them and otherwise unchanged -- characters and styling.
@@ -202,7 +226,18 @@ class C19:
             # half of the texts also get a base style (spans win over it where both speak) and are
             # printed through a truecolor console rather than encoded piece by piece
             bases = [gen_base(rng) if rng.random() < 0.5 else None for _ in texts]
-            return {"kind": "rt", "cfg": {"auto_refresh": False}, "texts": texts, "bases": bases}
+            # ... and a third of those are then styled further with Text.stylize() over arbitrary
+            # ranges, in arbitrary order (a later call wins where two speak, whatever the offsets)
+            overlays = []
+            for t, b in zip(texts, bases):
+                ov = []
+                n = len("".join(x for x, _ in t).translate(STRIP))
+                if b is not None and n >= 2 and rng.random() < 0.35:
+                    for _ in range(rng.randint(1, 3)):
+                        a = rng.randrange(0, n - 1)
+                        ov.append([gen_style(rng) or "bold", a, rng.randint(a + 1, n)])
+                overlays.append(ov)
+            return {"kind": "rt", "cfg": {"auto_refresh": False}, "texts": texts, "bases": bases, "overlays": overlays}
         if rng.random() < 0.12:
             return self._gen_pf(rng)
         if rng.random() < 0.12:
@@ -390,7 +425,14 @@ class C19:
                 del c["texts"][i]
                 if c.get("bases"):
                     del c["bases"][i]
+                if c.get("overlays"):
+                    del c["overlays"][i]
                 yield c
+            for i, ov in enumerate(case.get("overlays") or []):
+                for j in range(len(ov) - 1, -1, -1):
+                    c = copy.deepcopy(case)
+                    del c["overlays"][i][j]
+                    yield c
             for i, b in enumerate(case.get("bases") or []):
                 if b:
                     parts = b.split(" ")
@@ -463,7 +505,8 @@ class RoundTrip:
         with self.sim.atomic():
             dec = AnsiDecoder()
             bases = self.case.get("bases") or [None] * len(self.case["texts"])
-            for pieces, base in zip(self.case["texts"], bases):
+            overlays = self.case.get("overlays") or [[] for _ in self.case["texts"]]
+            for pieces, base, ovs in zip(self.case["texts"], bases, overlays):
                 if base is None:
                     enc = encode_pieces(pieces)
                 else:
@@ -474,6 +517,10 @@ class RoundTrip:
                     tx = _Text(style=base, end="")
                     for t, st in pieces:
                         tx.append(t, style=st or None)
+                    for st, a, b in ovs:
+                        tx.stylize(st, a, b)
+                    if ovs:
+                        self.with_overlays = getattr(self, "with_overlays", 0) + 1
                     pc = _Console(file=_io.StringIO(), width=10000, force_terminal=True, color_system="truecolor", _environ={})
                     pc.print(tx, end="")
                     enc = scrub_links(pc.file.getvalue())
@@ -490,6 +537,11 @@ class RoundTrip:
                         k = style_key(Style.parse(st)) if st else ((), None, None, None)
                     else:
                         k = combine_keys(base, st)
+                    if base is not None and ovs:
+                        for _ in t.translate(STRIP):
+                            i = len(exp)
+                            exp.append(combine_list([base, st] + [o[0] for o in ovs if o[1] <= i < o[2]]))
+                        continue
                     exp.extend([k] * len(t.translate(STRIP)))
                 from rich.console import Console
 
@@ -511,7 +563,8 @@ class RoundTrip:
         for t in self.sim.threads:
             if t.exc is not None:
                 v.append({"oracle": "exception", "sig": "exception:" + type(t.exc).__name__, "msg": (t.tb or "")[-600:], "seq": 0})
-        return {"violations": v, "faults": {}, "probes": {"roundtrip_chars": self.n, "roundtrip_texts": len(self.case["texts"]), "roundtrip_printed_with_base_style": self.with_base},
+        return {"violations": v, "faults": {}, "probes": {"roundtrip_chars": self.n, "roundtrip_texts": len(self.case["texts"]), "roundtrip_printed_with_base_style": self.with_base,
+                                                                       "roundtrip_with_stylize_overlays": getattr(self, "with_overlays", 0)},
                 "nontrivial": len(self.case["texts"]) > 0, "sample": {"kind": "rt", "texts": self.case["texts"][:2]}}
 
 
@@ -927,7 +980,8 @@ class Proxy:
 
 C19.rule = ("cases drawn from VERIF_SEED: 25% direct round trips (1-12 styled texts: 13 attributes, default/standard/256/24-bit colours, links; half of them printed with a base style through a console), "
             "9% FileProxy over a console whose render hook fails chosen prints (Exception / BaseException; lines completed by a failed write may be missing, nothing else), "
-            "66% proxy runs (1-7/14 styled lines over stdout+stderr, encoder-made or hand-written SGR with carry-over, torn at seeded positions biased "
+            "9% several writer threads (2-3) writing whole unstyled lines to one redirected stream under a seeded schedule (each line printed once, whole, in its writer's order), "
+            "57% proxy runs (1-7/14 styled lines, 5% of their words carrying a BS / VT / FF that rich strips, over stdout+stderr, encoder-made or hand-written SGR with carry-over, torn at seeded positions biased "
             "into escape sequences, with empty writes, flushes, sleeps and refreshes; Live or Progress; refresh thread in 40%); non-trivial = at least "
             "one text / one completed line; distinct = distinct (case, switch-signature)")
 C19.components_real = ["rich.ansi (AnsiDecoder)", "rich.file_proxy (FileProxy)", "rich.style / rich.color (encoder)", "rich.live", "rich.progress", "rich.console"]
